@@ -3,12 +3,17 @@ package vc
 import (
 	"bytes"
 	"fmt"
+	"encoding/json"
+	"go/ast"
 	"go/constant"
+	"go/parser"
+	"go/token"
 	"go/types"
 	"os"
 	"os/exec"
 	"path/filepath"
 	"strings"
+	"sync"
 
 	"golang.org/x/tools/go/ssa"
 )
@@ -160,11 +165,86 @@ func relName(f *ssa.Function) string {
 	return s
 }
 
+// Names of the functions and methods (without receiver) that goag emitted for
+// the corpus when baseline/emitted-functions.json was recorded. A function of
+// an emitted package whose name is not among them is a helper introduced by a
+// later change to the templates: it has no contract, so it is unfolded at its
+// call sites when it is small and loop-free (instead of being havocked).
+var (
+	emittedNamesMu   sync.Mutex
+	emittedNames     map[string]bool
+	emittedNamesPath string
+	emittedRecorded  = map[string]bool{}
+)
+
+func SetEmittedNamesPath(p string) { emittedNamesPath = p }
+
+func knownEmittedName(n string) bool {
+	emittedNamesMu.Lock()
+	defer emittedNamesMu.Unlock()
+	if emittedNames == nil {
+		emittedNames = map[string]bool{}
+		if data, err := os.ReadFile(emittedNamesPath); err == nil {
+			var ns []string
+			if json.Unmarshal(data, &ns) == nil {
+				for _, x := range ns {
+					emittedNames[x] = true
+				}
+			}
+		}
+	}
+	return len(emittedNames) == 0 || emittedNames[n]
+}
+
+func recordEmittedNames(dir string) {
+	fset := token.NewFileSet()
+	pkgs, err := parser.ParseDir(fset, dir, nil, 0)
+	if err != nil {
+		return
+	}
+	emittedNamesMu.Lock()
+	defer emittedNamesMu.Unlock()
+	for _, p := range pkgs {
+		for _, f := range p.Files {
+			for _, d := range f.Decls {
+				if fd, ok := d.(*ast.FuncDecl); ok {
+					emittedRecorded[fd.Name.Name] = true
+				}
+			}
+		}
+	}
+}
+
+// WriteEmittedNames stores the names collected by a recording run.
+func WriteEmittedNames() error {
+	emittedNamesMu.Lock()
+	defer emittedNamesMu.Unlock()
+	if len(emittedRecorded) == 0 {
+		return nil
+	}
+	data, _ := json.MarshalIndent(sortedKeys(emittedRecorded), "", " ")
+	return os.WriteFile(emittedNamesPath, data, 0o644)
+}
+
+func newEmittedHelper(w *World) func(f *ssa.Function) bool {
+	return func(f *ssa.Function) bool {
+		if f.Parent() != nil || f.Pkg == nil || f.Pkg.Pkg.Path() != "emitted" || knownEmittedName(f.Name()) {
+			return false
+		}
+		n := 0
+		for _, b := range f.Blocks {
+			n += len(b.Instrs)
+		}
+		return len(f.Blocks) <= 8 && n <= 60
+	}
+}
+
 // ConfigureEmittedWorld sets the call policies used for emitted packages.
 func ConfigureEmittedWorld(w *World) {
 	w.CheckOverflow = false
 	w.InlineSmall = true
 	w.InlineClosures = true
+	w.InlineNamed = newEmittedHelper(w)
 	w.DynamicPolicy = func(e *FuncEnc, in ssa.Instruction, name string) CallKind {
 		name = strings.ReplaceAll(name, "emitted.", "")
 		switch {
@@ -190,7 +270,16 @@ func ConfigureEmittedWorld(w *World) {
 		}
 		return CallHavoc
 	}
-	w.MapValueFact = func(e *FuncEnc, mt *types.Map, val, has string) string {
+	w.MapValueFact = func(e *FuncEnc, declared types.Type, val, has string) string {
+		// only the standard library's multi-maps: a map[string][]string declared
+		// by the spec (additionalProperties) may hold nil or empty slices
+		if !isNamed(declared, "net/url", "Values") && !isNamed(declared, "net/http", "Header") && !isNamed(declared, "net/textproto", "MIMEHeader") {
+			return ""
+		}
+		mt, ok := declared.Underlying().(*types.Map)
+		if !ok {
+			return ""
+		}
 		if sl, ok := mt.Elem().Underlying().(*types.Slice); ok {
 			if b, ok := sl.Elem().Underlying().(*types.Basic); ok && b.Kind() == types.String {
 				e.Assumed["W1: a key present in url.Values / http.Header has at least one value"] = true
@@ -360,33 +449,63 @@ func (em *Emitted) authFields() (map[string]int, error) {
 func authSource(f *ssa.Function) string {
 	src := ""
 	trimBearer := false
-	for _, b := range f.Blocks {
-		for _, in := range b.Instrs {
-			c, ok := in.(*ssa.Call)
-			if !ok {
-				if lk, ok := in.(*ssa.Lookup); ok {
-					if s, ok := constString(lk.Index); ok {
+	// str: a constant string, also through the parameters of a helper the
+	// method delegates to (firstHeaderValue(r, "Authorization"))
+	var scan func(f *ssa.Function, bind map[*ssa.Parameter]ssa.Value, depth int)
+	scan = func(f *ssa.Function, bind map[*ssa.Parameter]ssa.Value, depth int) {
+		str := func(v ssa.Value) (string, bool) {
+			if p, ok := v.(*ssa.Parameter); ok && bind[p] != nil {
+				v = bind[p]
+			}
+			return constString(v)
+		}
+		for _, b := range f.Blocks {
+			for _, in := range b.Instrs {
+				c, ok := in.(*ssa.Call)
+				if !ok {
+					if lk, ok := in.(*ssa.Lookup); ok {
+						if s, ok := str(lk.Index); ok {
+							src = "query:" + s
+						}
+					}
+					continue
+				}
+				callee := c.Call.StaticCallee()
+				if callee == nil {
+					continue
+				}
+				switch callee.String() {
+				case "(net/http.Header).Values", "(net/http.Header).Get":
+					if s, ok := str(c.Call.Args[1]); ok {
+						src = "header:" + s
+					}
+				case "(net/url.Values).Get":
+					if s, ok := str(c.Call.Args[1]); ok {
 						src = "query:" + s
 					}
-				}
-				continue
-			}
-			callee := c.Call.StaticCallee()
-			if callee == nil {
-				continue
-			}
-			switch callee.String() {
-			case "(net/http.Header).Values", "(net/http.Header).Get":
-				if s, ok := constString(c.Call.Args[1]); ok {
-					src = "header:" + s
-				}
-			case "strings.TrimPrefix":
-				if s, ok := constString(c.Call.Args[1]); ok && s == "Bearer " {
-					trimBearer = true
+				case "strings.TrimPrefix":
+					if s, ok := str(c.Call.Args[1]); ok && s == "Bearer " {
+						trimBearer = true
+					}
+				default:
+					if depth < 2 && callee.Pkg == f.Pkg && len(callee.Blocks) > 0 && callee.Signature.Recv() == nil {
+						nb := map[*ssa.Parameter]ssa.Value{}
+						for i, p := range callee.Params {
+							if i < len(c.Call.Args) {
+								a := c.Call.Args[i]
+								if ap, ok := a.(*ssa.Parameter); ok && bind[ap] != nil {
+									a = bind[ap]
+								}
+								nb[p] = a
+							}
+						}
+						scan(callee, nb, depth+1)
+					}
 				}
 			}
 		}
 	}
+	scan(f, nil, 0)
 	if trimBearer && strings.EqualFold(src, "header:Authorization") {
 		return "bearer"
 	}
